@@ -372,6 +372,22 @@ def custom_scheduler(bins, fs_, b_offset=0.0):
     return CustomPlan(bins, b_offset)
 
 
+class SpyWindow:
+    """A user window callable that looks at the caller's buffer every time the library calls it, i.e. while a plan /
+    compute / single-bin call is in flight (the in-flight ownership monitor)."""
+
+    def __init__(self, name, probe):
+        self.name = name
+        self.__name__ = "spy_" + name
+        self.probe = probe
+        self.calls = 0
+
+    def __call__(self, L):
+        self.calls += 1
+        self.probe()
+        return WINDOWS[self.name](L)
+
+
 def analyzer_kwargs(cfg, win_obj=None):
     kw = dict(
         olap=cfg["olap"], bmin=cfg["bmin"], Lmin=cfg["Lmin"], Jdes=cfg["Jdes"], Kdes=cfg["Kdes"],
